@@ -189,6 +189,76 @@ async fn server_sizes(rep: &mut Report, sizes: &[usize]) {
     h.abort();
 }
 
+// ---------------------------------------------------------------- several associations at once
+
+/// Two (three) concurrent associations on one server, to the same target and to different targets: every reply comes
+/// back on the association whose datagram it answers. Associations to one target must use distinct relay sockets
+/// (otherwise the target's replies cannot be told apart at all).
+async fn concurrent_associations(rep: &mut Report) {
+    let t1 = UdpSocket::bind("127.0.0.1:0").await.unwrap();
+    let t2 = UdpSocket::bind("127.0.0.1:0").await.unwrap();
+    let (a1, a2) = (t1.local_addr().unwrap(), t2.local_addr().unwrap());
+    // associations: A -> t1, B -> t1 (same target), C -> t2
+    let targets = [a1, a1, a2];
+    let mut feeds = vec![];
+    let mut outs = vec![];
+    let mut tasks = vec![];
+    for (i, t) in targets.iter().enumerate() {
+        let (st, feed, out) = hand_stream(20 + i as u32);
+        tasks.push(tokio::spawn(handle_udp_over_tcp(st)));
+        let _ = feed.send(Bytes::from(initial_request(*t)));
+        feeds.push(feed);
+        outs.push(out);
+    }
+    let names = ["A", "B", "C"];
+    let mut relay: Vec<Option<SocketAddr>> = vec![None; 3];
+    for round in 0..4u32 {
+        for who in [0usize, 1, 2, 1, 0] {
+            rep.case(Some(&format!("concurrent associations, round {round}, datagram from {}", names[who])));
+            let d = dgram(5000 + round * 10 + who as u32, 30 + who);
+            let _ = feeds[who].send(Bytes::from(framed(&d)));
+            let sock = if who == 2 { &t2 } else { &t1 };
+            let Some((got, from)) = recv_one(sock, 1500).await else {
+                rep.violation("C15:datagram-lost", &format!("concurrent associations: the datagram of association {} did not reach its target", names[who]), json!({"engine": "SEMI", "side": "server", "associations": 3}));
+                return;
+            };
+            if got != d {
+                rep.violation("C15:datagram-altered", &format!("concurrent associations: target received {} bytes for a {}-byte datagram of association {}", got.len(), d.len(), names[who]), json!({"engine": "SEMI", "side": "server", "associations": 3}));
+                return;
+            }
+            relay[who] = Some(from);
+            if who < 2 && relay[0].is_some() && relay[0] == relay[1] {
+                rep.violation("C15:associations-share-a-relay-socket", &format!("associations A and B (both to {a1}) send from the same source address {from}: the target's replies cannot be delivered to the right association"), json!({"engine": "SEMI", "side": "server", "associations": 3}));
+                return;
+            }
+            // the target answers the sender; the answer must come back on that association only
+            let back = dgram(6000 + round * 10 + who as u32, 20 + who);
+            let _ = sock.send_to(&back, from).await;
+            let got = collect_framed(&mut outs[who], 1, 1500).await;
+            if got.len() != 1 || got[0] != back {
+                let mut elsewhere = vec![];
+                for other in 0..3 {
+                    if other != who && !collect_framed(&mut outs[other], 1, 30).await.is_empty() {
+                        elsewhere.push(names[other]);
+                    }
+                }
+                rep.violation("C15:reply-delivered-on-other-association", &format!("concurrent associations: the reply to {}'s datagram came back as {:?} datagram(s) on {}; other associations that received something: {:?}", names[who], got.iter().map(|x| x.len()).collect::<Vec<_>>(), names[who], elsewhere), json!({"engine": "SEMI", "side": "server", "associations": 3}));
+                return;
+            }
+        }
+    }
+    // nothing stray anywhere
+    for i in 0..3 {
+        if !collect_framed(&mut outs[i], 1, 30).await.is_empty() {
+            rep.violation("C15:reply-delivered-on-other-association", &format!("association {} received a datagram nobody sent to it", names[i]), json!({"engine": "SEMI", "side": "server", "associations": 3}));
+        }
+    }
+    drop(feeds);
+    for t in tasks {
+        t.abort();
+    }
+}
+
 // ---------------------------------------------------------------- long pauses between fragments
 
 /// Jump the clock of this (current-thread) runtime by `secs` and let every timer that became due run.
@@ -465,6 +535,7 @@ pub fn run(tier: Tier) -> i32 {
         server_sizes(&mut rep, &sizes).await;
         let csizes: Vec<usize> = if thorough { sizes.iter().copied().filter(|s| s % 3 == 1 || *s < 300 || *s > 65000).collect() } else { sizes.clone() };
         client_side(&mut rep, &csizes, thorough).await;
+        concurrent_associations(&mut rep).await;
         end_to_end(&mut rep, false).await;
         end_to_end(&mut rep, true).await;
     });
@@ -472,5 +543,5 @@ pub fn run(tier: Tier) -> i32 {
     fragments_with_gaps(&mut rep, thorough);
     rep.sections.insert("sizes".into(), json!({"count": sizes.len(), "min": sizes.first(), "max": sizes.last()}));
     rep.sample(json!({"case": "server side, byte stream [initial request][len=5][..][len=1][.][len=2][..] delivered cut at [9, 14]"}));
-    rep.finish("IX/SEMI: datagram sizes (quick: boundary sizes incl. 65505..65507; thorough: every size 1..=65507) in both directions through the real server-side and client-side relay loops over real loopback UDP sockets in lock-step; every 1-cut and 2-cut split (and byte-at-a-time) of 2- and 3-datagram length-prefixed streams incl. cuts inside the initial request; two-piece deliveries with 0..301 s (thorough ..3601 s) of silence between the pieces (clock of a current-thread runtime jumped); end to end through create_udp_proxy and the real handler for an IPv4 and an IPv6 target; non-trivial = distinct size / cut pattern")
+    rep.finish("IX/SEMI: datagram sizes (quick: boundary sizes incl. 65505..65507; thorough: every size 1..=65507) in both directions through the real server-side and client-side relay loops over real loopback UDP sockets in lock-step; every 1-cut and 2-cut split (and byte-at-a-time) of 2- and 3-datagram length-prefixed streams incl. cuts inside the initial request; three concurrent associations on one server (two to the same target) with replies attributed per association; two-piece deliveries with 0..301 s (thorough ..3601 s) of silence between the pieces (clock of a current-thread runtime jumped); end to end through create_udp_proxy and the real handler for an IPv4 and an IPv6 target; non-trivial = distinct size / cut pattern")
 }
